@@ -569,6 +569,11 @@ func newPlainCtx(wl *wlPlain) *plainCtx {
 }
 
 func (c *plainCtx) check(cfg simrt.Config) ([]mismatch, simrt.Stats, string) {
+	mm, st, summary := c.check0(cfg)
+	return settleAborted([]string{"C17"}, false, mm, st), st, summary
+}
+
+func (c *plainCtx) check0(cfg simrt.Config) ([]mismatch, simrt.Stats, string) {
 	var mm []mismatch
 	add := func(class, f string, a ...any) {
 		mm = append(mm, mismatch{"C17", class, "", fmt.Sprintf(f, a...)})
